@@ -610,21 +610,40 @@ def _asm_cache_path(texts):
     return d, os.path.join(d, "asm_%s.json" % h.hexdigest()[:24])
 
 
+ASM_TABLE = os.path.join(os.path.dirname(os.path.abspath(__file__)), "c18_asm_table.json")
+
+
 def assemble_all(ctx, todo):
-    """{(mode, text): hex bytes or '!error'}; cached under /verif/.cache/c18 keyed by the assembler sources and the list."""
-    texts = [[mo, t] for mo, t in todo]
+    """{(mode, text): hex bytes or '!error'}.
+
+    Assembling ~3300 texts with mn_x86.asm (which enumerates every candidate encoding) costs several CPU minutes, so the
+    result is kept: checks/c18_asm_table.json is the shipped product of miasm's assembler (first candidate) for the template
+    list; a text missing from it (template list edited) is assembled live and kept under /verif/.cache/c18 keyed by the
+    assembler sources. The bytes are inputs only: both sides execute them, the live decoder and lifter always run."""
+    table = {}
+    try:
+        with open(ASM_TABLE) as fd:
+            table = {(mo, t): b for mo, t, b in json.load(fd)["entries"]}
+    except Exception:
+        table = {}
+    missing = [k for k in todo if k not in table]
+    if not missing:
+        return {k: table[k] for k in todo}, True
+    texts = [[mo, t] for mo, t in missing]
     d, path = _asm_cache_path(texts)
     if os.path.exists(path):
         try:
             with open(path) as fd:
                 data = json.load(fd)
-            return {(mo, t): b for mo, t, b in data}, True
+            table.update({(mo, t): b for mo, t, b in data})
+            return {k: table[k] for k in todo}, True
         except Exception:
             pass
     n = 96
-    shards = [todo[i::n] for i in range(n)]
+    shards = [missing[i::n] for i in range(n)]
     res = ctx.pmap(_asm_shard, [s for s in shards if s])
     data = [r for part in res for r in part]
+    table.update({(mo, t): b for mo, t, b in data})
     try:
         os.makedirs(d, exist_ok=True)
         for old in os.listdir(d):
@@ -636,7 +655,21 @@ def assemble_all(ctx, todo):
         os.replace(tmp, path)
     except OSError:
         pass
-    return {(mo, t): b for mo, t, b in data}, False
+    return {k: table[k] for k in todo}, False
+
+
+def regen_table():
+    """python -m checks.c18_x86_vs_host --regen-table : rebuild checks/c18_asm_table.json with miasm's assembler."""
+    import multiprocessing as mp
+    _load()
+    todo = [(64, t) for g, t in forms64()] + [(32, t) for g, t in forms32()]
+    with mp.get_context("fork").Pool(os.cpu_count() or 4) as pool:
+        res = pool.map(_asm_shard, [todo[i::96] for i in range(96)])
+    got = {(mo, t): b for part in res for mo, t, b in part}
+    data = {"generator": "miasm mn_x86.fromstring + mn_x86.asm, first candidate", "entries": [[mo, t, got[(mo, t)]] for mo, t in todo]}
+    with open(ASM_TABLE, "w") as fd:
+        json.dump(data, fd, indent=0)
+    print("wrote %d entries (%d not assemblable)" % (len(todo), sum(1 for v in got.values() if v.startswith("!"))))
 
 
 def _arg_class(a):
@@ -743,6 +776,11 @@ def prepare(mode, group, text, code):
     for p in acc["index"]:
         if p not in pins:
             pins[p] = 2
+    bitoff_par = None
+    if group == "bt" and len(args) == 2 and args[0].is_mem() and args[1].is_id():
+        bitoff_par = SUBREG[args[1].name][0]            # the bit offset register takes part in the address: still a value
+        pins.pop(bitoff_par, None)
+        acc["regs"].setdefault(bitoff_par, set()).add((0, args[1].size))
     # value slots: register portions
     slots = []
     explicit = []
@@ -761,6 +799,8 @@ def prepare(mode, group, text, code):
         if par in pins:
             continue
         rngs = sorted(acc["regs"][par], key=lambda r: (-(r[1] - r[0]), r[0]))
+        if par.startswith("XMM"):
+            rngs = [(0, 128)]                 # lane-wise reads: one 128-bit slot
         chosen = []
         for lo, hi in rngs:
             if hi <= lo:
@@ -795,10 +835,11 @@ def prepare(mode, group, text, code):
                 if s["k"] == "reg" and s["reg"] == "RCX" and s["lo"] == 0:
                     s["vk"] = "count"
                     s["w"] = 8
-    if group == "bt" and args and args[0].is_mem():
+    if bitoff_par:
         for s in slots:
-            if s["k"] == "reg" and s["reg"] == "RAX":
+            if s["k"] == "reg" and s["reg"] == bitoff_par:
                 s["vk"] = "bitoff"
+                s["w"] = args[1].size
     if group == "string":
         for s in slots:
             if s["k"] == "reg" and s["reg"] == "RCX":
@@ -856,14 +897,17 @@ def slot_values(s, level):
 def lattice(form, tier):
     """Per-slot value lists after the deterministic budget rule, flag combinations, background variants."""
     start, cap = (3, CAP_THOROUGH) if tier == "thorough" else (1, CAP_QUICK)
+    if tier == "thorough" and form["mode"] == 32:
+        start = 2               # same encodings as the 64-bit list, other lifter mode: medium lattice
     slots = form["slots"]
     for s in slots:
         if s["vk"] == "count":
             s["opw"] = form["opw"]
     levels = [start] * len(slots)
+    nfl = 1 << len(form["flags_read"])
 
     def size():
-        n = 1
+        n = len(form["bgvars"]) * nfl
         for s, lv in zip(slots, levels):
             n *= len(slot_values(s, lv))
         return n
@@ -915,16 +959,10 @@ def build_state(form, values, fl_read, rest_set, bgvar):
 def cases(form, tier):
     vals, levels, fcombos = lattice(form, tier)
     out = []
-    k = 0
     for bg in form["bgvars"]:
-        for combo in itertools.product(*vals):
-            for fl in fcombos:
-                if tier == "thorough":
-                    out.append(build_state(form, combo, fl, 0, bg))
-                    out.append(build_state(form, combo, fl, 1, bg))
-                else:
-                    out.append(build_state(form, combo, fl, k & 1, bg))
-                k += 1
+        for ci, combo in enumerate(itertools.product(*vals)):
+            for fi, fl in enumerate(fcombos):
+                out.append(build_state(form, combo, fl, (ci + fi + bg) & 1, bg))
     return out, levels
 
 
@@ -990,7 +1028,7 @@ def build_helper(outdir):
 # miasm side
 # ------------------------------------------------------------------------------------------------------------------
 FLOAT_OPS = re.compile(r"\b(fadd|fsub|fmul|fdiv|fsqrt|fcom\w*|sint_to_fp|uint_to_fp|fp_to_sint\d*|fp_to_uint\d*|fpconvert_fp\d+|fpround_\w+|"
-                       r"fabs|fchs|fprem|fpatan|fsin|fcos|fxam\w*|mem_\d+_to_double|double_to_mem_\d+)\b")
+                       r"fabs|fchs|fprem|fpatan|fsin|fcos|fxam\w*|mem_\d+_to_double|double_to_mem_\d+|u?comis[sd]_\w+)\b")
 
 
 class Emu(object):
@@ -1045,6 +1083,11 @@ class Emu(object):
         except Exception as e:              # noqa - any failure of the emulation is an observable outcome
             err = "%s: %s" % (type(e).__name__, str(e)[:300])
         out = {}
+        if err is not None and err.startswith("RuntimeError: Cannot find address"):
+            # the Python backend reports an access to unmapped memory by raising from vm.get_mem/set_mem
+            cpu.set_exception(0)
+            vm.set_exception(0)
+            return {"outcome": "segv"}
         if err is not None:
             out["outcome"] = "raise"
             out["err"] = err
@@ -1089,8 +1132,8 @@ def compare(form, st, nat, emu):
     """List of (component, detail) on which miasm contradicts the host for this case; [] when equal. None = skipped (undefined result)."""
     mode = form["mode"]
     if emu["outcome"] == "raise":
-        if FLOAT_OPS.search(emu["err"]) and "simplification is missing" in emu["err"]:
-            return "float-unsupported"
+        if FLOAT_OPS.search(emu["err"]) and ("simplification is missing" in emu["err"] or "Unknown op" in emu["err"]):
+            return "float-unsupported"        # floating point operator the backend cannot evaluate: skipped and counted
         return [("raise:" + emu["err"].split(":")[0], emu["err"])]
     if nat["outcome"] != emu["outcome"]:
         return [("outcome:native=%s,miasm=%s" % (nat["outcome"], emu["outcome"]), "native %s, miasm %s" % (nat["outcome"], emu["outcome"]))]
@@ -1158,7 +1201,8 @@ def judge(form, backend, st, nat, emu, tally):
         tally["undefined_result_skipped"] = tally.get("undefined_result_skipped", 0) + 1
         return []
     if res == "float-unsupported":
-        tally["float_unsupported_by_python_backend"] = tally.get("float_unsupported_by_python_backend", 0) + 1
+        k = "float_op_unsupported_cases_" + backend
+        tally[k] = tally.get(k, 0) + 1
         return "float"
     vs = []
     cc = count_class(form, st)
@@ -1176,8 +1220,9 @@ def judge(form, backend, st, nat, emu, tally):
 _W = {}
 _CFG = {}
 CAP_QUICK = 50
-CAP_THOROUGH = 1600
+CAP_THOROUGH = 900
 MAX_WITNESS_PER_SIG = 2
+QUICK_32_STRIDE = 3          # quick tier executes every third admitted 32-bit mode form
 
 
 def _load():
@@ -1267,33 +1312,22 @@ def run_form(form, backends, tier, tally, sigs):
                 if c < MAX_WITNESS_PER_SIG:
                     vs.append(v)
         if floaty:
-            tally.setdefault("forms_float_unsupported_python", []).append(form["text"])
+            tally.setdefault("forms_float_unsupported_" + backend, []).append("%d:%s" % (form["mode"], form["text"]))
     return vs
 
 
 def _work(shard):
-    """shard = (tier, backends, [(mode, group, text, codehex)])"""
+    """shard = (tier, backends, helper executable, [(mode, group, text, codehex)])"""
+    import time
+    t_start = time.time()
     _load()
-    tier, backends, items = shard
+    tier, backends, exe, items = shard
+    _CFG["exe"] = exe
     tally = {}
     sigs = {}
     vs = []
-    admitted = []
-    rejected = {}
-    codes32 = [bytes.fromhex(c) for mo, g, t, c in items if mo == 32]
-    llvm = llvm_mnemonics(codes32) if codes32 else None
     for mode, group, text, chex in items:
         code = bytes.fromhex(chex)
-        if mode == 32:
-            ok, why = mode_invariant(code)
-            if ok and llvm is not None:
-                a, b = llvm[code]
-                if _norm_llvm(a) != _norm_llvm(b) or "invalid" in a or "invalid" in b:
-                    ok, why = False, "llvm-mc-differs"
-            if not ok:
-                rejected.setdefault(why, []).append(text)
-                continue
-            admitted.append(text)
         try:
             form = prepare(mode, group, text, code)
         except NotImplementedError as e:
@@ -1310,8 +1344,7 @@ def _work(shard):
             sts, _ = cases(form, tier)
             tally["samples"].append({"asm": text, "code": chex, "mode": mode, "cases": len(sts), "first_input": describe_state(form, sts[0])})
     tally["sig_counts"] = sigs
-    tally["admitted32"] = admitted
-    tally["rejected32"] = rejected
+    tally["shard_seconds"] = round(time.time() - t_start, 2)
     return tally, vs
 
 
@@ -1337,13 +1370,18 @@ def run(ctx):
 
 
 def _run(ctx):
+    import time
+    t0 = time.time()
     _load()
     from mc import native
     tier = ctx.tier
+    phase = {"load": round(time.time() - t0, 1)}
     f64 = forms64()
     f32 = forms32()
     todo = [(64, t) for g, t in f64] + [(32, t) for g, t in f32]
+    t1 = time.time()
     asm, cached = assemble_all(ctx, todo)
+    phase["assemble"] = round(time.time() - t1, 1)
     items = []
     not_asm = []
     seen = set()
@@ -1359,15 +1397,44 @@ def _run(ctx):
                 continue
             seen.add((mode, b))
             items.append((mode, g, t, b))
+    # 32-bit mode: admit only mode-invariant encodings (byte-level rule, cross-checked with llvm-mc when available)
+    codes32 = [bytes.fromhex(b) for mo, g, t, b in items if mo == 32]
+    t1 = time.time()
+    llvm = llvm_mnemonics(codes32)
+    phase["llvm_mc"] = round(time.time() - t1, 1)
+    admitted, rejected, kept = [], {}, []
+    n32 = 0
+    for it in items:
+        mode, g, t, b = it
+        if mode == 32:
+            code = bytes.fromhex(b)
+            ok, why = mode_invariant(code)
+            if ok and llvm is not None:
+                a_, b_ = llvm[code]
+                if _norm_llvm(a_) != _norm_llvm(b_) or "invalid" in a_ or "invalid" in b_:
+                    ok, why = False, "llvm-mc-differs"
+            if not ok:
+                rejected.setdefault(why, []).append(t)
+                continue
+            admitted.append(t)
+            n32 += 1
+            if ctx.quick and (n32 - 1) % QUICK_32_STRIDE:
+                continue
+        kept.append(it)
+    items = kept
     outdir = tempfile.mkdtemp(prefix="c18_", dir=native.tmpdir())
     try:
         _CFG["exe"] = build_helper(outdir)
         backends = ["python"] if ctx.quick else ["python", "gcc"]
+        if os.environ.get("C18_BACKENDS"):          # debugging aid only
+            backends = os.environ["C18_BACKENDS"].split(",")
         # heavy forms first within an interleaved sharding so that the 16 workers stay balanced
         nsh = 64 if ctx.quick else 256
-        shards = [(tier, backends, items[i::nsh]) for i in range(nsh)]
-        shards = [s for s in shards if s[2]]
+        shards = [(tier, backends, _CFG["exe"], items[i::nsh]) for i in range(nsh)]
+        shards = [s for s in shards if s[3]]
+        t1 = time.time()
         res = ctx.pmap(_work, shards)
+        phase["execute"] = round(time.time() - t1, 1)
     finally:
         shutil.rmtree(outdir, ignore_errors=True)
     tally = {}
@@ -1382,29 +1449,38 @@ def _run(ctx):
         "native_cases": sum(v["cases"] for v in by_group.values()),
         "forms_executed": sum(v["forms"] for v in by_group.values()),
         "forms_64": sum(v["forms"] for k, v in by_group.items() if k.startswith("64:")),
-        "forms_32_admitted": len(tally.get("admitted32", [])),
-        "forms_32_rejected": sum(len(v) for v in tally.get("rejected32", {}).values()),
-        "rejected_32_by_reason": {k: len(v) for k, v in tally.get("rejected32", {}).items()},
-        "rejected_32_examples": {k: v[:6] for k, v in tally.get("rejected32", {}).items()},
+        "forms_32_admitted": len(admitted),
+        "forms_32_executed": sum(v["forms"] for k, v in by_group.items() if k.startswith("32:")),
+        "forms_32_rejected": sum(len(v) for v in rejected.values()),
+        "rejected_32_by_reason": {k: len(v) for k, v in rejected.items()},
+        "rejected_32_examples": {k: v[:6] for k, v in rejected.items()},
+        "llvm_mc_cross_check": llvm is not None,
         "forms_not_assemblable": len(not_asm),
         "not_assemblable": not_asm[:60],
         "duplicate_encodings_dropped": dup,
         "not_implemented_in_sem": tally.get("not_implemented_in_sem", []),
         "forms_float_unsupported_python": sorted(set(tally.get("forms_float_unsupported_python", []))),
-        "float_cases_skipped_python": tally.get("float_unsupported_by_python_backend", 0),
+        "forms_float_unsupported_gcc": sorted(set(tally.get("forms_float_unsupported_gcc", []))),
+        "float_cases_skipped_python": tally.get("float_op_unsupported_cases_python", 0),
+        "float_cases_skipped_gcc": tally.get("float_op_unsupported_cases_gcc", 0),
         "undefined_result_skipped": tally.get("undefined_result_skipped", 0),
         "native_outcomes": tally.get("native_outcomes", {}),
         "miasm_outcomes": tally.get("miasm_outcomes", {}),
         "by_group": by_group,
         "violating_cases_by_signature": dict(sorted(tally.get("sig_counts", {}).items())),
         "asm_cache_hit": cached,
+        "phase_seconds": phase,
+        "shard_seconds_max": max(t.get("shard_seconds", 0) for t, _ in res),
+        "shard_seconds_sum": round(sum(t.get("shard_seconds", 0) for t, _ in res), 1),
         "samples": tally.get("samples", [])[:6],
         "exhaustive": True,
         "bounds": {"tier": tier, "backends": backends, "cap_per_form": CAP_QUICK if ctx.quick else CAP_THOROUGH,
                    "start_level": 1 if ctx.quick else 3,
                    "value_levels": "3: refsem.boundary(w); 2: 8 values; 1: {0,1,2^(w-1)-1,2^(w-1),2^w-1}; 0: {1,2^w-1}",
-                   "unread_flags": "alternating all-clear/all-set" if ctx.quick else "both all-clear and all-set",
-                   "rep_counts": [0, 1, 2, 3], "window_bytes": WIN_LEN, "templates_64": len(f64), "templates_32": len(f32)},
+                   "unread_flags": "alternating all-clear/all-set from case to case",
+                   "start_level_32bit_mode": 1 if ctx.quick else 2,
+                   "rep_counts": [0, 1, 2, 3], "window_bytes": WIN_LEN, "templates_64": len(f64), "templates_32": len(f32),
+                   "stride_32bit_forms": QUICK_32_STRIDE if ctx.quick else 1},
     }
     return cov
 
@@ -1443,3 +1519,8 @@ def replay(case):
     e_ = emu.run(st)
     r = judge(form, backend, st, nat, e_, {})
     return [] if r == "float" else r
+
+
+if __name__ == "__main__":
+    if "--regen-table" in sys.argv:
+        regen_table()
